@@ -321,6 +321,10 @@ func (c *xCase) render() (data []byte, moofStart int) {
 		init = cat(init, free(c.pre-8))
 	}
 	moofStart = len(init)
+	// the senc sets are shared between cases and trafs: every traf gets its own copy before offsets are filled in
+	for ti := range c.trafs {
+		c.trafs[ti].sencs = append([]xSenc(nil), c.trafs[ti].sencs...)
+	}
 	var moof []byte
 	for pass := 0; pass < 2; pass++ {
 		pos := moofStart + 8
